@@ -1,6 +1,8 @@
 """
 This file is concerned with the extraction of objects given a path.
 """
+import dataclasses
+import datetime
 import importlib
 import inspect
 import logging
@@ -56,6 +58,23 @@ def _is_authorized_type(tpe: Type[Any], gctx: EvalMainContext) -> bool:
     if tpe is None:
         return True
     if tpe in (int, float, str, bytes, PurePosixPath, FunctionType, ModuleType):
+        return True
+    # The other basic values that dds_hash understands must be tracked by value as well,
+    # otherwise changing them silently serves stale results.
+    if tpe in (
+        bool,
+        tuple,
+        type(None),
+        datetime.date,
+        datetime.datetime,
+        datetime.time,
+        datetime.timedelta,
+    ):
+        return True
+    # Data classes and named tuples are hashed field by field.
+    if dataclasses.is_dataclass(tpe) or (
+        issubclass(tpe, tuple) and hasattr(tpe, "_fields")
+    ):
         return True
     # Some specific structural types are more complex and can be user-controlled.
     if get_option(accept_list_option) and tpe in (list,):
